@@ -937,9 +937,12 @@ Definition guard (st : state) (o : top) : Prop :=
   | TNew t _ => 1 <= t <= N
   | TAfter t _ _ => 1 <= t <= N /\ t_armed (tm st t) = false      (* _dispatch_after sets the values before activation *)
   | TCfg t _ _ _ _ => 1 <= t <= N
-  | TReg t => 1 <= t <= N
+  | TReg t => 1 <= t <= N /\ t_reg (tm st t) = 0 /\ t_armed (tm st t) = false
+      (* _dispatch_source_install, once per source (ds_is_installed); a never registered unote is not armed *)
   | TConfigure t => 1 <= t <= N
-  | TResume t => 1 <= t <= N /\ Z.land (t_pending (tm st t)) 1 = 0   (* _dispatch_source_invoke2: only when no data is pending *)
+  | TResume t => 1 <= t <= N /\ Z.land (t_pending (tm st t)) 1 = 0 /\ t_reg (tm st t) = 1
+      (* _dispatch_source_invoke2: only when no data is pending, and _dispatch_unote_needs_rearm demands a
+         registered unote (event_internal.h:_du_state_needs_rearm) *)
   | TUnreg t => 1 <= t <= N
   | TSusp t _ => 1 <= t <= N
   | TPend _ _ => False                                              (* test-only command *)
@@ -957,9 +960,11 @@ Proof.
     destruct G1 as [G1 A1]. apply set_notarmed_G; auto.
   - destruct Gd as [Ht A]. apply set_notarmed_G; auto.
   - unfold set_cfg. apply set_same_G; auto. intros A. apply G. exact A.
-  - unfold register. destruct (t_cfg (tm st t)); auto. apply configure_G; auto.
+  - destruct Gd as (Ht & R0 & A0). unfold register. rewrite R0. change (0 =? 1) with false. cbv iota.
+    assert (G1 : GInv (set_timer st t (with_armed (with_reg (tm st t) 1) false))) by (apply set_notarmed_G; auto).
+    destruct (t_cfg _); auto. apply configure_G; auto.
   - apply configure_G; auto.
-  - destruct Gd as [Ht P]. apply resume_G; auto.
+  - destruct Gd as (Ht & P & _). apply resume_G; auto.
   - apply unregister_G; auto.
   - apply set_same_G; auto. intros A. apply G. exact A.
   - contradiction.
